@@ -341,9 +341,11 @@ def build_session_with_burn_in(start, end, kind, weekday, rng):
     elif k == 1:
         e_ = e_.tz_convert(pytz.UTC)
         b_ = b_.tz_convert('UTC')
-    return BacktestTradingSession(s_, e_, StaticUniverse(['EQ:AAA']), FixedSignalsAlphaModel({'EQ:AAA': 1.0}),
+    sess = BacktestTradingSession(s_, e_, StaticUniverse(['EQ:AAA']), FixedSignalsAlphaModel({'EQ:AAA': 1.0}),
                                   rebalance=kind, long_only=True, cash_buffer_percentage=0.05, burn_in_dt=b_,
                                   data_handler=_NoData(), **kw)
+    sess._qsmon_burn = burn
+    return sess
 
 
 def schedules_survive_sessions(start, end, acc, rng):
@@ -373,7 +375,8 @@ def schedules_survive_sessions(start, end, acc, rng):
         want = {'weekly': lambda: cal.weekly(start, end, wd), 'daily': lambda: cal.daily(start, end),
                 'end_of_month': lambda: cal.end_of_month(start, end)}[kind]()
         got = [to_py(t) for t in sess.rebalance_schedule]
-        if got != want:
+        # (a session may legitimately keep only the instants it will act on, i.e. those not before its burn-in)
+        if got != want and got != [t for t in want if t >= sess._qsmon_burn]:
             raise Violation('C13', 'session-schedule', 'the %s session over %s .. %s (weekday %s) holds the schedule %s..., the '
                             'dates of the range give %s...' % (kind, start, end, wd, [str(t) for t in got[:3]],
                                                                [str(t) for t in want[:3]]), wit)
